@@ -86,8 +86,13 @@ CHECKS["C19"] = {
             "all-zero, all-0xFF, shared between clients, fresh) x clients x 5 worlds (IPv4, IPv4 strict, IPv4-mapped source address, IPv6 listener, IPv6 strict) on the real "
             "turn.Server; oracle on every datagram the server writes (destination = requester, id and method equal, at most one), Binding/Allocate truthfulness "
             "(mapped address, relay uniqueness, family, lifetime, even port), retransmission idempotence (same relay+lifetime, no socket created, count unchanged), 437/420 where named, "
-            "and after every request AllocationCount, open relay sockets and a reachability probe sweep against the reference model. A class is (world, form, state) -> (class, code).",
-    "parts": [A("vtx", "./checks/c19", "TestC19", budget={"quick": 90, "thorough": 1500})],
+            "and after every request AllocationCount, open relay sockets and a reachability probe sweep against the reference model. "
+            "Part realudp: every request sequence (depth 3 quick / 4 thorough) of {Binding, Allocate, the same Allocate retransmitted, Refresh 0, CreatePermission} over three clients against the real server on "
+            "kernel loopback sockets (*net.UDPConn): answer only at the requester, mapped address = the socket's, relayed address unique and really reachable (sweep), retransmission gets identical attributes; "
+            "strictly sequential, unexpected arrivals are violations at once, missing ones after three 5 s probes, unanswered fence => inconclusive. "
+            "A class is (world, form, state) -> (class, code).",
+    "parts": [A("vtx", "./checks/c19", "TestC19", budget={"quick": 90, "thorough": 1500}),
+              A("realudp", "./checks/c19", "TestC19RealUDP", budget={"quick": 120, "thorough": 1500})],
 }
 
 CHECKS["C18"] = {
